@@ -258,3 +258,130 @@ def lockcov(ctx, fn, lock_suffix, field_suffix, ops, rule="R-LOCKCOV", only_reac
                           % (field_suffix, op, c["ln"], lock_suffix, (" — " + label) if label else ""),
                           fn.file, c["ln"])
     return n
+
+
+# ---------------------------------------------------------------- R-ABA
+def cas_sites(fn):
+    """[(block, field, callrec, loaded_local|None, new_local|None)] for compare_exchange* calls"""
+    out = []
+    for b, op, fld, c in atomic_sites(fn):
+        if not op.startswith("compare_exchange"):
+            continue
+        cur = op_local(c["a"][1]) if len(c["a"]) > 1 else None
+        new = op_local(c["a"][2]) if len(c["a"]) > 2 else None
+        out.append((b, fld, c, cur, new))
+    return out
+
+
+def _reads_through(fn, new_local, loaded_roots):
+    """does the value `new_local` depend on a memory read through a pointer/offset derived from
+    the loaded head value? returns a description or None"""
+    if new_local is None:
+        return None
+    fw = fn.forward_locals(loaded_roots)
+    locs, sites = fn.backslice([new_local])
+    for loc, kind, pl in sites:
+        if kind == "assign":
+            for o in rv_operands(pl[2]):
+                p = op_place(o)
+                if p and "*" in p[1:] and p[0] in fw and (fn.ty(p[0]).startswith("*") or "NonNull" in fn.ty(p[0])):
+                    return "(*%s) at line %s" % (fn.local_name(p[0]), pl[3])
+        elif kind == "call":
+            f = pl["f"]
+            last = f.rsplit("::", 1)[-1]
+            if last in ("read", "read_unaligned", "read_volatile", "as_ref", "load") and \
+                    any(op_local(a) in fw for a in pl["a"]) and ("ptr" in f or "NonNull" in f or "Atomic" in f):
+                if "Atomic" in f and last == "load":
+                    # loading another atomic through a pointer derived from the head (node.next.load())
+                    l0 = op_local(pl["a"][0])
+                    if l0 is None or l0 not in fw:
+                        continue
+                return "%s() at line %s" % (last, pl["ln"])
+    return None
+
+
+def _bumps_tag(fn, new_local, loaded_roots):
+    """new value contains (something derived from the loaded value) + 1"""
+    if new_local is None:
+        return False
+    fw = fn.forward_locals(loaded_roots)
+    locs, sites = fn.backslice([new_local])
+    for loc, kind, pl in sites:
+        if kind == "assign" and pl[2][0] == "bin" and pl[2][1] in ("Add", "AddWithOverflow", "AddUnchecked"):
+            a, b = pl[2][2], pl[2][3]
+            for x, y in ((a, b), (b, a)):
+                cy = op_const(y)
+                if cy is not None and cy[0] == 1 and op_local(x) in fw:
+                    return True
+        if kind == "call" and pl["f"].rsplit("::", 1)[-1] in ("wrapping_add", "checked_add", "saturating_add") and len(pl["a"]) == 2:
+            cy = op_const(pl["a"][1])
+            if cy is not None and cy[0] == 1 and op_local(pl["a"][0]) in fw:
+                return True
+    return False
+
+
+def aba(ctx, fn, rule="R-ABA"):
+    """CAS-pop on an intrusive list must be tag-versioned or lock-covered"""
+    n = 0
+    guards = None
+    for b, fld, c, cur, new in cas_sites(fn):
+        if cur is None or fld is None:
+            continue
+        # the loaded value(s) that feed `current`
+        loaded = set()
+        locs, sites = fn.backslice([cur])
+        for loc, kind, pl in sites:
+            if kind == "call" and is_atomic_call(pl) and pl["f"].rsplit("::", 1)[-1] == "load":
+                loaded.add(pl["d"][0])
+        if not loaded:
+            loaded = {cur}
+        through = _reads_through(fn, new, loaded)
+        if not through:
+            continue           # push-style or counter-style CAS: no node read
+        n += 1
+        tagged = _bumps_tag(fn, new, loaded)
+        if guards is None:
+            guards = guard_locals(fn)
+        locked = bool(guards_live_at(fn, term_loc(fn, b), guards))
+        ok = tagged or locked
+        ctx.obligation(rule, fn.id, "CAS-pop on %s" % fld.rsplit("::", 1)[-1], ok,
+                       sample={"fn": fn.id, "atomic": fld, "new_value_reads": through, "version_tag_bumped": tagged,
+                               "lock_held": locked, "line": c["ln"]})
+        if not ok:
+            ctx.violation(rule, fn.id, "untagged CAS-pop on %s" % fld.rsplit("::", 1)[-1],
+                          "pop loads %s, reads the successor through it (%s) and installs it with compare_exchange on the bare "
+                          "value: if another thread pops and re-pushes the same node in between (ABA) the stale successor is "
+                          "installed%s" % (fld, through, ""), fn.file, c["ln"])
+    return n
+
+
+def aba_push_tags(ctx, fns, rule="R-ABA.push"):
+    """for atomics that are popped with a version tag, every other CAS on the same atomic must bump it too"""
+    tagged_fields = set()
+    allcas = []
+    for fn in fns:
+        for b, fld, c, cur, new in cas_sites(fn):
+            if cur is None or fld is None:
+                continue
+            loaded = set()
+            locs, sites = fn.backslice([cur])
+            for loc, kind, pl in sites:
+                if kind == "call" and is_atomic_call(pl) and pl["f"].rsplit("::", 1)[-1] == "load":
+                    loaded.add(pl["d"][0])
+            loaded = loaded or {cur}
+            bumps = _bumps_tag(fn, new, loaded)
+            pops = bool(_reads_through(fn, new, loaded))
+            allcas.append((fn, fld, c, bumps, pops))
+            if pops and bumps:
+                tagged_fields.add(fld)
+    n = 0
+    for fn, fld, c, bumps, pops in allcas:
+        if fld in tagged_fields and not pops:
+            n += 1
+            ctx.obligation(rule, fn.id, "CAS on tagged %s" % fld.rsplit("::", 1)[-1], bumps,
+                           sample={"fn": fn.id, "atomic": fld, "bumps_tag": bumps, "line": c["ln"]})
+            if not bumps:
+                ctx.violation(rule, fn.id, "push without tag bump on %s" % fld.rsplit("::", 1)[-1],
+                              "%s is popped under a version tag but this compare_exchange installs a new head without "
+                              "advancing the tag" % fld, fn.file, c["ln"])
+    return n
